@@ -303,3 +303,16 @@ where
         RequestBuilder::new(method, url, self.clone())
     }
 }
+
+#[cfg(feature = "crux_verif")]
+impl<Ev> Http<Ev>
+where
+    Ev: 'static,
+{
+    /// Attach a client-level middleware (verification hook: there is currently
+    /// no public way to configure the capability's client)
+    pub fn verif_with_client_middleware(mut self, middleware: impl middleware::Middleware) -> Self {
+        self.client = self.client.with(middleware);
+        self
+    }
+}
